@@ -38,6 +38,8 @@ RULE = (
 )
 ASSUMPTIONS = ["command files are text (str); undecodable bytes in a command file are an I/O matter outside from_source()"]
 
+from ..ref.commands import ALL as R_ALL
+
 RAW_KINDS = {
     "int": "7", "decimal": "2.5", "word": "abc", "quoted": '"some text"', "boolean_word": "true", "empty_list": "[]",
     "number_list": "[1, 2.5]", "word_list": "[abc, def]", "nested_list": "[[1, 2], [3]]", "tuple": '[k: v, "k2": "v2"]',
@@ -148,6 +150,9 @@ def matrix_cases():
             for p in sorted(t[cmd][3]) + ["Metadata"]:
                 for rk in RAW_KINDS:
                     yield {"io": io, "cmd": cmd, "param": p, "raw": rk}
+                    if cmd in R_ALL and rk in ("missing_name", "int", "number_list", "quoted", "tuple", "existing_result"):
+                        # the same, with consumers of the command's result written *before* it (forward references)
+                        yield {"io": io, "cmd": cmd, "param": p, "raw": rk, "consumers_before": True}
 
 
 def check_matrix(case, rec):
@@ -156,6 +161,9 @@ def check_matrix(case, rec):
     cmds = c12.base_commands(io)
     c = c12.canonical(cmd, "C", t[cmd], {"nf": "Src", "fz": "Fz"}, io)
     c["args"] = [a for a in c["args"] if a[0] != p] + [[p, {"r": RAW_KINDS[rk]}]]
+    if case.get("consumers_before"):
+        cmds.insert(0, {"name": "EarlyPlain", "cmd": "Sum", "args": [["InFieldNames", [{"r": "C"}, {"r": "C"}]]]})
+        cmds.insert(0, {"name": "EarlyFuzzy", "cmd": "FuzzyNot", "args": [["InFieldName", {"r": "C"}]]})
     cmds.append(c)
     text = c12.text_of(cmds)
     tmp = tempfile.mkdtemp(prefix="vcheck-c13-")
